@@ -151,7 +151,10 @@ pub fn gen_clean(rng: &mut Rng, allow_overlap: bool) -> Scenario {
     }
     let how = rng.below(3) as u8;
     let msgs = interleave(rng, per_ecu, how);
-    Scenario { mode: 0, n_ecus, msgs, boots: boots_truth, overlap_class, index_stride: 1 }
+    // 1/8: message indices in steps of 5000..40000, so that the detector's regular refresh (every 100 000 indices)
+    // happens while a boot is running
+    let index_stride = if rng.chance(1, 8) { *rng.pick(&[5_000u32, 20_000, 40_000]) } else { 1 };
+    Scenario { mode: 0, n_ecus, msgs, boots: boots_truth, overlap_class, index_stride }
 }
 
 /// merge the per-ecu lists keeping the per-ecu order: 0 = by reception time, 1 = arbitrary, 2 = in blocks
